@@ -140,6 +140,9 @@ def _work_batch(args):
                     res["unsupported"].append((name, w, str(u)))
                 except X.SpecError as u:
                     res["unsupported"].append((name, w, "xmlsem: " + str(u)))
+                except (z3.Z3Exception, KeyError, AttributeError, TypeError, IndexError, ValueError, AssertionError) as u:
+                    # the VC generator itself tripped over this class: not proved, decided by the bounded stand-in
+                    res["unsupported"].append((name, w, "verifier error: " + repr(u)[:200]))
             def solve_all(obls):
                 """solve the obligations of one class in a forked child that streams results back; the child beats
                 before every solver attempt, and a child silent for longer than any attempt may take is killed (z3's
